@@ -14,4 +14,23 @@ pub mod c01 {
         use super::P;
         include!("seqs_fixed.in");
     }
+    /// the generic table's write operations under C01's own verdict (C13 has the full model)
+    pub mod sdt_writes {
+        use super::P;
+        use crate::fixed;
+        macro_rules! fx {
+            ($name:ident, $unw:expr, $call:expr) => {
+                #[kani::proof]
+                #[kani::unwind($unw)]
+                pub fn $name() {
+                    $call;
+                }
+            };
+        }
+        fx!(q_sdt_write_u8, 60, fixed::sdt_write::<P>(0));
+        fx!(q_sdt_write_u16, 60, fixed::sdt_write::<P>(1));
+        fx!(q_sdt_write_u32, 60, fixed::sdt_write::<P>(2));
+        fx!(q_sdt_write_u64, 60, fixed::sdt_write::<P>(3));
+        fx!(q_sdt_write_slice3, 60, fixed::sdt_write::<P>(4));
+    }
 }
